@@ -1,7 +1,8 @@
 ENTRY = {
     "level": "proof",
     "families": [fam("C15", 2000, 60000)],
-    "gen_items": [],
+    "gen_items": ["PeerStatus", "Membership::up_was_down", "Membership::up_status", "Membership::up_failures", "Membership::up_generation", "Membership::down_was_up", "Membership::down_status", "Membership::down_failures", "Membership::down_generation"],
+    "extra_props": ["IQE.Props.C15Gen"],
     "rule": "one case = one whole history (1..30 ops) on a fresh Membership over a universe of 3..8 addresses drawn from a pool that holds this "
             "node in several spellings (127.0.0.1:p, localhost:p, LOCALHOST:p, [::1]:p, 127.1:p, [::ffff:127.0.0.1]:p, the machine's LAN address), "
             "port-only neighbours (p+1), other hosts, and unparsable strings; self address varies (loopback spellings, 0.0.0.0:p, foreign, LAN, unparsable); "
